@@ -146,7 +146,11 @@ PROFILE = {
 @st.composite
 def shared_case(draw):
     case = draw(gen.retry_case(PROFILE))
-    case["entries"] = draw(st.lists(st.sampled_from(C.RETRY_ENTRIES), min_size=2, max_size=3))
+    # every door into the retry loop can be handed the same Budget: constructors, from_config, context
+    # managers and the @retry decorator, sync and async
+    from .c12 import ENTRIES as ALL_ENTRIES
+
+    case["entries"] = draw(st.lists(st.sampled_from(C.RETRY_ENTRIES + ALL_ENTRIES), min_size=2, max_size=3))
     return case
 
 
